@@ -31,6 +31,14 @@ func main() {
 		vlib.CorpusScenario("C13-c2", `{ as { id ... @defer { s sn } ... @defer(label: "x") { kid { id } } } }`, nil),
 		vlib.CorpusScenario("C13-c3", `{ a { ... @defer(label: "l") { s } ... @defer(label: "l") { sn } ... @defer { s2: s } } an { ...F @defer(if: true) } } fragment F on A { kidn { sn ... @defer { s } } }`, nil),
 		vlib.CorpusScenario("C13-c4", `query($d: Boolean!) { a { id ... @defer(if: $d) { s } ... @defer(if: false) { sn } } }`, map[string]any{"d": true}),
+		// a composite field selected outside AND inside a deferred fragment with different sub-selections
+		vlib.CorpusScenario("C13-c6", `{ a { id kid { id } ... @defer { kid { name s } } } }`, nil),
+		vlib.CorpusScenario("C13-c7", `{ as { b { id } ... @defer(label: "x") { b { bs name } id } } an { ... @defer { kidn { sn } } kidn { id } } }`, nil),
+		vlib.CorpusScenario("C13-c8", `{ a { node { id } ... on A @defer(label: "n") { node { name ... on A { s } } kid { id } } kid { name } } }`, nil),
+		vlib.CorpusScenario("C13-c9", `{ a { ...F @defer kids { id } } } fragment F on A { kids { s name } kidsnn { id } }`, nil),
+		// several deferred fragments on one object sharing a label / unlabelled, with fields in between
+		vlib.CorpusScenario("C13-c10", `{ a { id ... @defer { s } name ... @defer { kid { name } } tag ... @defer { sn } } }`, nil),
+		vlib.CorpusScenario("C13-c11", `{ as { ... @defer(label: "l") { s } id ... @defer(label: "l") { sn } plainn ... @defer(label: "m") { kid { id } } num } }`, nil),
 		vlib.CorpusScenario("C13-c5", `{ annsn { kidsnn { ... @defer { sn kidn { ... @defer { s } } } } } }`, nil),
 	}
 	vlib.ExecConformance(c, "C13", bins, vs, rand.New(rand.NewSource(vlib.Seed()+1300)), n,
